@@ -920,6 +920,30 @@ def check_C06(v, tier, seed):
                 v.fail(facts, case_replay(c, msg))
                 concrete.add((r.name, c.id))
     ctor = constructor_step(v, "C06", runs, concrete)
+    # one mount racing with a non-following lookup: placed before the k-th system call, for every k
+    rm = Run("C06-racemount", ["proc-racemount"])
+    race = {"cases": 0, "mounted_during_lookup": 0, "exdev": 0, "genuine_object": 0}
+    for c in rm.cases:
+        if c.op[:1] == ["skip"]:
+            continue
+        race["cases"] += 1
+        ident = (c.extra.get("racemount", [["none"]])[0] or ["none"])[0]
+        d = res_fd(c)
+        if ident != "none":
+            race["mounted_during_lookup"] += 1
+            if c.res[:3] == ["err", "OsError", "18"]:
+                race["exdev"] += 1
+            if d is not None:
+                if f"{d.get('dev')}:{d.get('ino')}" == ident:
+                    facts = proc_facts(c)
+                    msg = (f"a mount placed over {c.meta.get('dst')} before system call {c.meta.get('race_at')} of the lookup: "
+                           f"the over-mounted object {ident} was returned")
+                    facts.update({"kind": "oracle", "oracle": msg})
+                    v.fail(facts, case_replay(c, msg))
+                    concrete.add((rm.name, c.id))
+                else:
+                    race["genuine_object"] += 1
+    runs.append(rm)
     broken = generic_tie(v, runs, concrete)
     cov = coverage_of(runs, nontrivial=lambda c: c.meta.get("mask") not in (None, "0"),
                       key=lambda c: (c.meta.get("mask"), c.meta.get("handle"), c.cfg.get("hemu"), tuple(c.op),
@@ -932,6 +956,7 @@ def check_C06(v, tier, seed):
     cov["tie_mismatches"] = broken
     cov["layouts"] = len(masks)
     cov["handle_constructors"] = ctor
+    cov["racing_mount"] = race
     cov.update(stats)
     return cov
 
